@@ -788,6 +788,32 @@ def _relurl_only_rewrites_absolute_paths(ctx, rep):
                py.nloc(e.node))
 
 
+def get_dir_gives_page(py, cls: str, parent_cls: str) -> Optional[bool]:
+    """does FortranBase.get_dir() return a directory for an entity of class `cls` declared in a `parent_cls`?  Decided by
+    evaluating the conditions of its `return self.obj` on the two classes (isinstance tests against class tuples, base classes,
+    negations - whatever the spelling); None if the conditions involve something else"""
+    base = py.func("FortranBase.get_dir")
+    memo = py.__dict__.setdefault("_get_dir_events", None)
+    if memo is None:
+        memo = py.__dict__["_get_dir_events"] = [e for e in astq.trace(base) if e.kind == "return" and e.value is not None
+                                                  and not (isinstance(e.value, ast.Constant) and e.value.value is None)]
+
+    def atom(x):
+        if isinstance(x, ast.Call) and call_name(x) == "isinstance" and len(x.args) == 2 and ast.unparse(x.args[0]) in ("self", "self.parent"):
+            who = cls if ast.unparse(x.args[0]) == "self" else parent_cls
+            ks = x.args[1].elts if isinstance(x.args[1], ast.Tuple) else [x.args[1]]
+            names = [ast.unparse(k) for k in ks]
+            if all(k in py.classes for k in names):
+                return ("yes", True) if any(py.is_subclass(who, k) for k in names) else ("no", True)
+        return None
+    res = [astq.event_fires(e, atom, {"yes": True, "no": False}) for e in memo]
+    if any(r is True for r in res):
+        return True
+    if all(r is False for r in res):
+        return False
+    return None
+
+
 def _gather_recursion_covers_displayed_procedures(ctx, rep):
     """Entities that always have a page (namelists) are gathered by walking down from the program units through their procedures.
     The walk has to reach every procedure that is displayed, i.e. every procedure list the display filter recurses into: a list
